@@ -683,6 +683,29 @@ func (st *Stack) compactRange(first, last int, expiration *LogExpirationConfig) 
 	fn += ".ref"
 	destTable := filepath.Join(st.reftableDir, fn)
 
+	// While the list lock was released, other processes may have
+	// added tables or compacted other ranges. Splice the result
+	// into the list as it is now. The tables of our range are
+	// still in it, as we hold their locks.
+	cur, err := st.readNames()
+	pos := -1
+	n := last - first + 1
+	for i := 0; err == nil && pos < 0 && i+n <= len(cur); i++ {
+		pos = i
+		for j := 0; j < n; j++ {
+			if cur[i+j] != st.stack[first+j].name {
+				pos = -1
+				break
+			}
+		}
+	}
+	if pos < 0 {
+		if !emptyTable {
+			os.Remove(tmpTable)
+		}
+		return false, err
+	}
+
 	if !emptyTable {
 		if err := os.Rename(tmpTable, destTable); err != nil {
 			return false, err
@@ -690,17 +713,11 @@ func (st *Stack) compactRange(first, last int, expiration *LogExpirationConfig) 
 	}
 
 	var names []string
-	for i := 0; i < first; i++ {
-		names = append(names, st.stack[i].name)
-	}
-
+	names = append(names, cur[:pos]...)
 	if !emptyTable {
 		names = append(names, fn)
 	}
-
-	for i := last + 1; i < len(st.stack); i++ {
-		names = append(names, st.stack[i].name)
-	}
+	names = append(names, cur[pos+n:]...)
 
 	if _, err := lockFile.Write([]byte(strings.Join(names, "\n"))); err != nil {
 		os.Remove(destTable)
